@@ -102,6 +102,37 @@ impl El for Dr {
     }
 }
 
+/// Zero-sized AND drop-counted (run `--elem dz`; values as for `Zs`): an operation that disposes of elements by
+/// address arithmetic alone never runs their destructors.
+struct Dz;
+impl Clone for Dz {
+    fn clone(&self) -> Dz {
+        Dz::mk(0)
+    }
+}
+impl Drop for Dz {
+    fn drop(&mut self) {
+        DR_DROPS.with(|c| c.set(c.get() + 1));
+    }
+}
+impl std::fmt::Debug for Dz {
+    fn fmt(&self, f: &mut std::fmt::Formatter) -> std::fmt::Result {
+        write!(f, "0")
+    }
+}
+impl El for Dz {
+    fn mk(_: u32) -> Dz {
+        DR_MADE.with(|c| c.set(c.get() + 1));
+        Dz
+    }
+    fn val(&self) -> u32 {
+        0
+    }
+    fn drops() -> Option<u64> {
+        Some(DR_DROPS.with(|c| c.get()))
+    }
+}
+
 /// `it.clone()` with the direct oracles of an observable Clone: exactly one T::clone per remaining element, each
 /// taken from the original's own element (its use count goes up by one), the new elements fresh.
 fn clone_checked<E: El, N: ArrayLength>(it: &GenericArrayIter<E, N>) -> GenericArrayIter<E, N> {
@@ -326,6 +357,7 @@ fn run_case(case: &[i128]) -> Vec<i128> {
     let cn = std::env::args().any(|a| a == "cn");
     let zs = std::env::args().any(|a| a == "zs");
     let dr = std::env::args().any(|a| a == "dr");
+    let dz = std::env::args().any(|a| a == "dz");
     let (m0, d0) = (DR_MADE.with(|c| c.get()), DR_DROPS.with(|c| c.get()));
     let out = dispatch_len!(
         n,
@@ -336,6 +368,8 @@ fn run_case(case: &[i128]) -> Vec<i128> {
             run::<Zs, N>(vals, ops)
         } else if dr {
             run::<Dr, N>(vals, ops)
+        } else if dz {
+            run::<Dz, N>(vals, ops)
         } else {
             run::<u32, N>(vals, ops)
         },
@@ -356,7 +390,7 @@ thread_local! {
 
 fn do_case(case: Vec<i128>) {
     let mut case = case;
-    if std::env::args().any(|a| a == "zs") && !case.is_empty() && case[0] >= 0 {
+    if std::env::args().any(|a| a == "zs" || a == "dz") && !case.is_empty() && case[0] >= 0 {
         // zero-sized elements: all values, and all written values, are 0
         let n = case[0] as usize;
         for v in &mut case[1..1 + n] {
